@@ -31,7 +31,9 @@ func DecodeGrouped(data datatype.Grouped, application uint32, dictionary *dict.P
 			return nil, err
 		}
 		g.AVP = append(g.AVP, avp)
-		n += avp.Len()
+		// Advance by the declared length (padded), never by the
+		// size the decoded data type would serialize to.
+		n += (avp.Length + 3) &^ 3
 	}
 	// TODO: handle nested groups?
 	return g, nil
